@@ -12,6 +12,7 @@ pub(crate) fn validate_arguments(
     let mut seen = HashMap::<_, Option<SourceSpan>>::default();
 
     for argument in arguments {
+        super::value::validate_unique_input_fields(diagnostics, &argument.value);
         let name = &argument.name;
         if let Some(&original_definition) = seen.get(name) {
             let redefined_definition = argument.location();
